@@ -467,7 +467,7 @@ func init() {
 			re := (*args[0].(*value)).(nativeObj).v.(*regexp.Regexp)
 			s, ok := args[1].(string)
 			if !ok {
-				panic(unsupported("regexp match on symbolic text"))
+				return symRegexMatch(re.String(), toSstr(args[1]))
 			}
 			return re.MatchString(s)
 		},
